@@ -298,6 +298,7 @@ def mux_module_of(h):
 
 # written, but beyond reach on this machine (reason): never selected by a tier, see DESIGN §8
 OFF = {
+    "c02_w_plain_big": "one write of 1 MiB + 1 octet (constant contents): the solver does not finish within 600 s (1 MiB array copies); writes larger than a few octets are therefore outside the claim - seed C02c (writes > 1 MiB split into several frames, replayed from the start after a Pending) is NOT detected",
     "c20_three_steps_s12": "truncate -> split_off -> advance with three symbolic arguments: out of memory at 20 GB",
     "c20_three_steps_s213": "truncate -> split_off -> advance with three symbolic arguments: out of memory at 20 GB",
     "c11_send_h3_p1": "engine imprecision: in this instance the bytes after the first of a >= 3-octet host copied into the frame are unconstrained in CBMC's model (standalone reproductions of the same copy are precise); the counterexample does not reproduce natively, so the instance cannot decide anything",
